@@ -64,7 +64,8 @@ Definition with_thr (s : st) (t : tid) (th : thr) : st :=
 (* A schedule event: thread t takes its next micro-step.  [alt] resolves the nondeterminism of select: at a lock
    step, alt = true asks for the "<-closed" branch (only possible when closed).  EClose: the connection is closed by
    somebody else (timeoutLoop on a done context, the read side) — possible at any moment. *)
-Inductive ev := EStep (t : tid) (alt : bool) | EClose.
+Inductive ev := EStep (t : tid) (alt : bool) | EClose
+  | EGiveUp (t : tid).   (* the context of t's current call ends while t waits for a lock (conn.go mu.lock: case <-ctx.Done()) *)
 
 Definition release_msg (s : st) : option tid := None.     (* mu.unlock: drains the slot whoever holds it *)
 
@@ -73,6 +74,21 @@ Definition step (s : st) (e : ev) : option st :=
   | EClose => if closed s then None else
       Some {| msg_mu := msg_mu s; frame_mu := frame_mu s; closed := true; closing := closing s; close_sent := close_sent s; client := client s;
               thrs := thrs s; wire := wire s |}
+  | EGiveUp t =>
+    (* mu.lock returns the context's error: nothing was acquired.  Waiting for msgWriter.mu: the call fails, nothing else changes.
+       Waiting for writeFrameMu: Conn.Write's single-frame message gives msgWriter.mu back (deferred unlock, write.go:108); a streamed
+       message keeps it (the Writer was not closed); a Ping just fails.  Close is not covered (its contexts are its own 5 s ones). *)
+    let th := thrs s t in
+    match ph th with
+    | WantMsg _ _ => Some (with_thr s t (ret th false))
+    | WantFrame FData k _ fi =>
+        if Nat.eqb k 0 && Nat.eqb fi 0 then
+          Some {| msg_mu := None; frame_mu := frame_mu s; closed := closed s; closing := closing s; close_sent := close_sent s; client := client s;
+                  thrs := upd (thrs s) t (ret th false); wire := wire s |}
+        else Some (with_thr s t (ret th false))
+    | WantFrame FPing _ _ _ => Some (with_thr s t (ret th false))
+    | _ => None
+    end
   | EStep t alt =>
     let th := thrs s t in
     match ph th with
